@@ -19,7 +19,8 @@ How the statement is read here:
 * flapping      — the statement does not say what flap detection does; the spec takes "is the ID flapping at this
                   point" as an INPUT flag and reads it as the documented suppression: a flapping ID delivers nothing
                   (stream) / nothing but the recovery (batch, as documented in the comment of `BufferedBatch`).
-                  `flapWindow` defines that flag from the plain level history for the driver.
+                  `docDiffs` / `specStreamFlags` define that flag from the plain level history by the DOCUMENTED
+                  rule (adjacent pairs, newest change weighted most).
 * batch form    — every point of a batch is judged against the level before the batch; the batch level is the highest
                   (with `all()`: the lowest) point level; the "triggering point" is the first point of the highest
                   level; for `all()` and for an OK batch there is no single triggering point and the batch's own time
@@ -112,34 +113,44 @@ def specBatches (c : Cfg) (tr : Track) : List (Batch × Bool) → List Ev
     let (tr', e) := specBatch c tr b fl
     e.toList ++ specBatches c tr' bs
 
-/-! ### Flap detection on the plain level history (used by the driver to give the spec its `fl` input)
+/-! ### Flap detection on the plain level history
 
-The documented rule (pipeline/alert.go `Flapping`): percentage of (weighted) state changes over the last `history`
-levels; above `high` ⇒ flapping, below `low` ⇒ not flapping any more. The weighting as the implementation does it:
-`history − 1` comparisons, taken along the circular order that starts at the newest level and continues with the
-oldest, second oldest, …; the i-th comparison has weight `weight0 + i·step`. -/
+The documented rule (pipeline/alert.go `Flapping`, alert.go `weightDiff`/`maxWeight`): look at the last `history`
+levels of the ID (levels before the first point count as OK); each of the `history − 1` ADJACENT pairs either is a
+state change or not; changes are weighted, "the newest state change is weighted `weightDiff` times more than the
+oldest"; the weighted percentage above `high` ⇒ flapping, below `low` ⇒ not flapping any more. So the comparisons
+are the adjacent pairs in chronological order, oldest pair first (lowest weight), newest pair last (highest
+weight). The weighting arithmetic and the hysteresis are the `FlapDecide` parameter. -/
 
-/-- `levels` = all levels of the ID so far, NEWEST FIRST; result: the window of `n` levels in the circular order
-newest, oldest, second oldest, …, second newest (missing history = OK). -/
-def flapWindow (n : Nat) (levels : List Nat) : List Nat :=
-  let recent := (levels.take n) ++ List.replicate (n - levels.length) 0   -- newest first, length n
-  match recent with
+/-- `recent` = all levels of the ID so far, NEWEST FIRST. The `n − 1` adjacent pairs of the last `n` levels, oldest
+pair first: pair `i` compares the level `n−2−i` steps back with the one `n−1−i` steps back. -/
+def docDiffs (n : Nat) (recent : List Nat) : List Bool :=
+  (List.range (n - 1)).map (fun i => recent.getD (n - 2 - i) 0 != recent.getD (n - 1 - i) 0)
+
+/-- What flap detection knows about an ID: its levels so far (newest first) and whether it is flapping. -/
+structure FlapTrack where
+  recent : List Nat := []
+  flapping : Bool := false
+deriving DecidableEq, Repr, Inhabited
+
+/-- The ID is at level `cur` now. -/
+def flapAdvance (c : Cfg) (dec : FlapDecide) (ft : FlapTrack) (cur : Nat) : FlapTrack :=
+  let recent := cur :: ft.recent
+  { recent := recent,
+    flapping := if c.useFlap then dec ft.flapping (docDiffs c.history recent) else ft.flapping }
+
+/-- The flapping flags of a stream history (the `fl` inputs of `specStream`). -/
+def specStreamFlags (c : Cfg) (dec : FlapDecide) (ft : FlapTrack) : List Pt → List Bool
   | [] => []
-  | newest :: older => newest :: older.reverse
+  | p :: ps =>
+    let ft' := flapAdvance c dec ft (specLevel c p (ft.recent.headD 0))
+    (c.useFlap && ft'.flapping) :: specStreamFlags c dec ft' ps
 
-def windowChange (k : FlapConsts) (cyc : List Nat) : Float := Id.run do
-  let n := cyc.length
-  let mut changes : Float := 0.0
-  let mut weight := k.weight0
-  let step := (k.maxWeight - weight) / (n - 1).toFloat
-  for i in [0:n-1] do
-    let prev := if i = 0 then n - 1 else i - 1
-    if cyc.getD i 0 != cyc.getD prev 0 then changes := changes + weight
-    weight := weight + step
-  return changes / (n - 1).toFloat
-
-def specFlap (k : FlapConsts) (low high : Float) (n : Nat) (was : Bool) (levels : List Nat) : Bool :=
-  let p := windowChange k (flapWindow n levels)
-  if was && p < low then false else if !was && p > high then true else was
+/-- … and of a batch history (an empty batch changes nothing). -/
+def specBatchFlags (c : Cfg) (dec : FlapDecide) (ft : FlapTrack) : List Batch → List Bool
+  | [] => []
+  | b :: bs =>
+    let ft' := if b.pts.isEmpty then ft else flapAdvance c dec ft (batchLevel c (ft.recent.headD 0) b.pts)
+    (c.useFlap && ft'.flapping) :: specBatchFlags c dec ft' bs
 
 end Kap.C01
